@@ -38,6 +38,12 @@ CLAIMED = {
  'C11': dict(level='model_checking', technique='symbolic execution (z3) of API edges with in-place mutations of passed / returned values; later builds compared with the pristine value',
              text='For each value-carrying edge (arguments, fresh and cached return values of subbuild/build_file at root and nested, list_dir and walk results) user code performs an in-place mutation (5 kinds, symbolic element) and the following builds must return the pristine value, must not re-execute, and must still see real directory changes.',
              note='Trusted: environment model, proxies, z3; determinism of the user function defines the pristine value.'),
+ 'C15': dict(level='model_checking', technique='bounded symbolic execution (z3): after a committed build one refused call per path; identity of the whole tree (inode, content id, mtime) before/after as validity query',
+             text='Every refusal class (argument types per slot, build name, cache path is a directory, each exception class of gzip+json, each wrong document class with a symbolic version value) is tried for build, build_versioned and clean on trees with outputs; the tree incl. the cache file must be identical, no temporary directory may remain and no user function may be called.',
+             note='Trusted: environment model incl. the gzip/json outcome stub (validated by real-byte replays of each class), z3.'),
+ 'C07': dict(level='model_checking', technique='symbolic execution (z3) of pairs of calls with JSON argument templates; observed same-entry decision asserted iff an independent spec-level JSON equality formula; path spellings enumerated',
+             text='Two calls with symbolic argument templates are issued in the same build (duplicate RuntimeError iff same entry) and in consecutive builds (cache hit iff same entry); the observed decision must be equivalent to name equality, path equality and spec-level JSON equality of the round-tripped arguments (validity query), and the callee must receive the round-tripped copies with exact types.',
+             note='Trusted: proxies (strings as ordered atoms), environment model, z3, the spec formula; spelling of paths is enumerated, not symbolic.'),
 }
 NA_REASON = 'check not built yet in this round (work in progress; see DESIGN.md section 12)'
 
